@@ -43,6 +43,9 @@ func (b *Bytes) UnmarshalJSON(data []byte) error {
 			return err
 		}
 		v, err := hex.DecodeString(s)
+		if err == nil && arenaOn {
+			v = append(arenaAlloc(len(v))[:0], v...)
+		}
 		*b = v
 		return err
 	}
@@ -50,7 +53,7 @@ func (b *Bytes) UnmarshalJSON(data []byte) error {
 	if err := json.Unmarshal(data, &xs); err != nil {
 		return err
 	}
-	out := make([]byte, len(xs))
+	out := arenaAlloc(len(xs))
 	for i, x := range xs {
 		if x < 0 || x > 255 {
 			return fmt.Errorf("byte out of range: %d", x)
@@ -59,6 +62,36 @@ func (b *Bytes) UnmarshalJSON(data []byte) error {
 	}
 	*b = out
 	return nil
+}
+
+// Arena mode (option arena=1, active during the reverse-order pass of Lines): the byte strings of a case are not freshly
+// allocated but delivered in REUSED caller buffers -- the k-th byte string of length n of every case lives in the same
+// backing array (same base address, same length, new content), as when an application decodes every datagram from one
+// receive buffer. Code that keeps a reference into its input, or that recognises an input by its address (a cache keyed by
+// the caller's slice), gives different answers in this pass than on fresh slices. Drivers that keep case inputs across lines
+// must copy them (or not enable the mode).
+var (
+	arenaOn   bool
+	arenaBufs = map[int][][]byte{}
+	arenaNext = map[int]int{}
+)
+
+func arenaAlloc(n int) []byte {
+	if !arenaOn || n == 0 {
+		return make([]byte, n)
+	}
+	k := arenaNext[n]
+	arenaNext[n] = k + 1
+	for len(arenaBufs[n]) <= k {
+		arenaBufs[n] = append(arenaBufs[n], make([]byte, n))
+	}
+	return arenaBufs[n][k]
+}
+
+func arenaNewLine() {
+	for n := range arenaNext {
+		delete(arenaNext, n)
+	}
 }
 
 func (b Bytes) MarshalJSON() ([]byte, error) {
@@ -98,12 +131,74 @@ type Ctx struct {
 	tf       *os.File
 	tw       *bufio.Writer
 	retained map[string][]retainedOut
+	reuse    map[string][]byte
 }
 
 type retainedOut struct {
 	live []byte
 	copy []byte
 	desc interface{}
+}
+
+// ReusedInput runs a decoder/parser twice on the same bytes: once on a fresh private slice and once through a buffer that is
+// reused for every input of the same length at this site (same base address and length, new content -- an application reading
+// every record into one buffer). run returns the observable result as a string. The two results must be equal: a parser that
+// recognises its input by address (a cache keyed by the caller's slice) or that keeps state from the previous call differs.
+func (c *Ctx) ReusedInput(site string, in []byte, run func([]byte) string, desc interface{}) {
+	if len(in) == 0 {
+		return
+	}
+	fresh := run(append([]byte(nil), in...))
+	c.mu.Lock()
+	if c.reuse == nil {
+		c.reuse = map[string][]byte{}
+	}
+	key := fmt.Sprintf("%s/%d", site, len(in))
+	slot := c.reuse[key]
+	prev := c.reuse[key+"/prev"]
+	if slot == nil {
+		slot = make([]byte, len(in))
+		c.reuse[key] = slot
+	}
+	c.reuse[key+"/prev"] = append([]byte(nil), in...)
+	c.mu.Unlock()
+	if prev != nil {
+		// the previous input of this length, delivered in the buffer immediately before the current one: whatever the code
+		// remembers about "the last call" now refers to this very buffer
+		copy(slot, prev)
+		run(slot)
+	}
+	copy(slot, in)
+	got := run(slot)
+	c.Exec(3)
+	if got != fresh {
+		c.Fail(site, "reused-input-buffer", fmt.Sprintf("the same bytes give %s from a fresh slice and %s from a buffer that held the previous input of this length", trunc(fresh), trunc(got)),
+			map[string]interface{}{"input": desc})
+	}
+}
+
+// Guarded returns a copy of b that is a sub-slice of a larger array: the 8 bytes behind it (inside its capacity) hold a
+// sentinel, as when a caller cuts adjacent views out of one blob. GuardIntact tells whether the sentinel is still there: code
+// that appends to its argument in place writes into its caller's neighbouring data.
+func Guarded(b []byte) []byte {
+	g := make([]byte, len(b)+8)
+	copy(g, b)
+	for i := len(b); i < len(g); i++ {
+		g[i] = 0xA5
+	}
+	return g[:len(b)]
+}
+
+func GuardIntact(g []byte) bool {
+	if cap(g) < len(g)+8 {
+		return false
+	}
+	for _, x := range g[len(g) : len(g)+8] {
+		if x != 0xA5 {
+			return false
+		}
+	}
+	return true
 }
 
 // Retain registers an output the code under test handed out (the slice itself, not a copy). Every later Retain for the same
@@ -215,14 +310,21 @@ func (c *Ctx) Lines(fn func(raw []byte) error) error {
 	if err := sc.Err(); err != nil {
 		return err
 	}
+	arenaOn = rev && c.Opt("arena", "") == "1"
 	for i := len(kept) - 1; i >= 0; i-- {
+		arenaNewLine()
 		if err := fn(kept[i]); err != nil {
+			arenaOn = false
 			return err
 		}
 	}
 	if rev {
 		c.Set("reverse_order_pass_cases", len(kept))
+		if arenaOn {
+			c.Set("reverse_order_pass_inputs_in_reused_buffers", true)
+		}
 	}
+	arenaOn = false
 	return nil
 }
 
